@@ -80,7 +80,8 @@ CHECKS["C15"] = dict(
 CHECKS["C16"] = dict(
     text="Derived.tla defines the unconditional row share with a third indicator mode "
          "('any': the column answer places no condition); CAT/MR pairings, 2-D and 3-D with "
-         "missing table and column categories in every position x TLC-enumerated bags.",
+         "missing table and column categories in every position (categorical, categorical-date "
+         "and datetime table dimensions) x TLC-enumerated bags.",
     ref="DESIGN.md section 4 C16",
     technique="TLA+ survey model, TLC enumeration, spec-behaviour replay into Cube")
 CHECKS["C17"] = dict(
@@ -149,7 +150,8 @@ CHECKS["C13"] = dict(
          "and t(a,a)=0 are checked by TLC as a theorem in every state; seeded insertion / order / "
          "alpha / only-larger configurations x TLC-enumerated bags; every display column as "
          "selected column; p-values via the Student-t tail, index sets by the stated rule; the "
-         "legacy accessor is compared too.",
+         "legacy accessor is compared too; squared weights on a response whose weighted and "
+         "unweighted counts coincide (every bag of <= 6 respondents with weights 1/2, 3/2).",
     ref="DESIGN.md section 4 C13",
     technique="TLA+ pairwise model + TLC-checked spec theorem, spec-behaviour replay into Cube")
 CHECKS["C18"] = dict(
@@ -160,7 +162,8 @@ CHECKS["C18"] = dict(
          "replayed on live objects, every read compared with a fresh evaluation; the guarded "
          "lazyproperty hook records cache event streams of those replays, of long random "
          "schedules over every public property and of the repository's integration tests, "
-         "validated by TLC against TraceCache.tla.",
+         "validated by TLC against TraceCache.tla; response forms and repeated cube sets "
+         "(numeric-measure sets, single-column filter cubes) over the same response objects.",
     ref="DESIGN.md section 4 C18, section 2.5",
     technique="TLA+ state machine model-checked by TLC; behaviours replayed; hook traces validated by TLC (TraceCache.tla)")
 CHECKS["C19"] = dict(
@@ -177,8 +180,9 @@ CHECKS["C06"] = dict(
          "first / middle / last, cat-date, MR, CA items, CA categories) over every rows x columns "
          "pairing x TLC-enumerated bags: all partition outputs and table_name against the "
          "respondent-level meaning with the table element in membership mode; CubeSet families "
-         "(tabbook, CA-as-0th, numeric-measure rows as dict and JSON text) built from "
-         "spec-emitted member responses.",
+         "(tabbook, CA-as-0th, numeric-measure rows as dict and JSON text, the rebuilt "
+         "single-column filter cube with population / minimum base / hide+prune transforms and "
+         "a second set over the same objects) built from spec-emitted member responses.",
     ref="DESIGN.md section 4 C06",
     technique="TLA+ survey model, TLC enumeration, spec-behaviour replay into Cube / CubeSet")
 
